@@ -6,7 +6,7 @@
      6 LPopen a (b<>0) | 7 LExit a | 8 LCommRet a (answer b: 0 unsat 1 sat 2 unknown 3 garbage)
      9 LCommTimeout a | 10 LCommExc a | 11 LFinally a | 12 LSetResult a
      13 LSdSet a | 14 LSdAcquire a | 15 LSdCancel a b | 16 LSdSnap a | 17 LSdJoin a | 18 LSdReturn a
-     19 LSdRaise a *)
+     19 LSdRaise a | 20 LSubRecheck a | 21 LSubUnlock a | 22 LSdRelease a *)
 From Coq Require Import ZArith List Bool String.
 From Coq Require Extraction.
 From Coq Require Import ExtrOcamlBasic ExtrOcamlString.
@@ -36,6 +36,7 @@ Definition dec_label (t a b : Z) : option label :=
   | 12 => Some (LSetResult j)
   | 13 => Some (LSdSet j) | 14 => Some (LSdAcquire j) | 15 => Some (LSdCancel j (nz b))
   | 16 => Some (LSdSnap j) | 17 => Some (LSdJoin j) | 18 => Some (LSdReturn j) | 19 => Some (LSdRaise j)
+  | 20 => Some (LSubRecheck j) | 21 => Some (LSubUnlock j) | 22 => Some (LSdRelease j)
   | _ => None
   end.
 
@@ -49,6 +50,7 @@ Definition enc_label (l : label) : list Z :=
   | LSdSet k => [13; zn k; 0] | LSdAcquire k => [14; zn k; 0] | LSdCancel k j => [15; zn k; zn j]
   | LSdSnap k => [16; zn k; 0] | LSdJoin k => [17; zn k; 0] | LSdReturn k => [18; zn k; 0]
   | LSdRaise k => [19; zn k; 0]
+  | LSubRecheck j => [20; zn j; 0] | LSubUnlock j => [21; zn j; 0] | LSdRelease k => [22; zn k; 0]
   end.
 
 Fixpoint dec_labels (fuel : nat) (l : list Z) : option (list label) :=
@@ -85,6 +87,7 @@ Definition enc_spc (p : spc_t) : list Z :=
   match p with
   | SCheck => [0; -1] | SAcquire => [1; -1] | SAppend => [2; -1] | SStart => [3; -1]
   | SRelease => [4; -1] | SWait => [5; -1] | SGot v => [6; enc_verdict v] | SRejected => [7; -1]
+  | SRecheck => [8; -1] | SUnlock => [9; -1]
   end.
 Definition enc_wpc (w : wpc_t) : Z :=
   match w with WNew => 0 | WStarted => 1 | WComm => 2 | WFinally => 3 | WSetRes => 4 | WDone => 5 end.
@@ -98,7 +101,7 @@ Definition enc_list (l : list nat) : list Z := zn (List.length l) :: map zn l.
 Definition enc_sd (s : sd) : list Z :=
   match dpc s with
   | DSet => [0; 0] | DAcquire => [1; 0] | DCancel l => 2 :: enc_list l | DSnap => [3; 0]
-  | DJoin l => 4 :: enc_list l | DDone => [5; 0] | DRaised => [6; 0]
+  | DJoin l => 4 :: enc_list l | DDone => [5; 0] | DUnlock l => 7 :: enc_list l
   end.
 Definition enc_lock (l : option owner) : list Z :=
   match l with None => [0; 0] | Some (OSub j) => [1; zn j] | Some (OSd k) => [2; zn k] end.
@@ -145,9 +148,11 @@ Definition c17_enabled (a : list Z) : list Z :=
      (otherwise only "unsat"). *)
 Definition thread_of (l : label) : nat :=
   match l with
-  | LSubCheck j | LSubAcquire j | LSubAppend j | LSubStart j | LSubRelease j | LSubWait j => 4 * j
+  | LSubCheck j | LSubAcquire j | LSubRecheck j | LSubUnlock j | LSubAppend j | LSubStart j
+  | LSubRelease j | LSubWait j => 4 * j
   | LPopen j _ | LExit j | LCommRet j _ | LCommTimeout j | LCommExc j | LFinally j | LSetResult j => 4 * j + 1
-  | LSdSet k | LSdAcquire k | LSdCancel k _ | LSdSnap k | LSdJoin k | LSdRaise k | LSdReturn k => 4 * k + 2
+  | LSdSet k | LSdAcquire k | LSdCancel k _ | LSdSnap k | LSdRelease k | LSdJoin k | LSdRaise k
+  | LSdReturn k => 4 * k + 2
   end.
 
 Definition allowed (mask : Z) (l : label) : bool :=
